@@ -1132,9 +1132,14 @@ Inv_C16_ChangedSpecIsPulled ==
 \* component) and the environment of its namespace - with all of them unchanged (the harness never changes files or
 \* environment within a scenario) a re-render gives the same template: the Package controller changes the template of
 \* an existing deployment only when the Package spec differs from the one the template was last written from
+\* (C13 speaks of the render, i.e. of the template before chunking. The NAMES of slices also depend on which slices exist
+\* in the cluster - a name taken by a slice of another deployment incarnation is avoided even for identical content,
+\* observation O11 - so a template whose slice names moved is judged by Inv_C14_SliceContent / Inv_C16_TemplateIsRender.)
+SliceNamesOf(o) == UNION { { o.cr.phases[j].slices[i] : i \in DOMAIN o.cr.phases[j].slices } : j \in DOMAIN o.cr.phases }
 Inv_C13_UnchangedPackageKeepsTemplate ==
     (lw.valid /\ IsPkgActor(W.actor) /\ W.ev = "Update" /\ ~W.dry /\ PR.hasSnap /\ W.pre.exists /\ W.post.exists
-       /\ W.post.kind \in {"ObjectDeployment", "ClusterObjectDeployment"} /\ W.pre.cr.tmplHash # W.post.cr.tmplHash)
+       /\ W.post.kind \in {"ObjectDeployment", "ClusterObjectDeployment"} /\ W.pre.cr.tmplHash # W.post.cr.tmplHash
+       /\ SliceNamesOf(W.pre) = SliceNamesOf(W.post))
     => hist.deployedFor[W.key][1] # PR.snap.cr.tmplHash
 
 \* the unpacked-hash is recorded only by a pass that got the content of the image (valid or not): after a failed pull -
